@@ -592,3 +592,28 @@ Proof.
     exists p, ws, mgr. repeat split; auto. eapply generate_norefs; eassumption.
   - destruct e; cbn in GP; try discriminate. destruct o; discriminate.
 Qed.
+
+(* the entry point and the assembly proper end the same way: every theorem about vector_assemble
+   (SrcEquivAssembly.v, SrcEndToEnd.v, Props/C01_src ... C19) speaks about vector.assemble(...)
+   itself whenever the inputs' citations dereference (in particular when there are none) *)
+Theorem entry_point_outcome vector m ms kw hd :
+  good_ent vector -> Forall good_ent (m :: ms) ->
+  map ent_id (m :: ms) = seq 0 (List.length (m :: ms)) -> ent_id vector = List.length (m :: ms) ->
+  deref_elems ((m :: ms) ++ [vector]) [] (heap_of (vector :: m :: ms)) = Ok hd ->
+  outcome_of (fst (run_assemble (S (S (List.length (m :: ms)))) vector (m :: ms) kw))
+  = outcome_of (vector_assemble (S (S (List.length (m :: ms)))) vector (m :: ms)).
+Proof.
+  intros Gv Gm Hids Hvid Ede.
+  pose proof (run_assemble_outcome vector m ms kw Gv Gm Hids Hvid) as H. cbv zeta in H. rewrite Ede in H.
+  rewrite H. symmetry. now apply vector_assemble_eq.
+Qed.
+
+(* records without any citation qualifier dereference trivially *)
+Lemma deref_record_nocits r : Forall (fun x => qcits (fquals x) = None) (pr_features r) -> deref_record r = Ok r.
+Proof.
+  intros H. unfold deref_record.
+  assert (E : py_mapM (deref_feature (refs_or_empty r)) (pr_features r) = Ok (pr_features r)).
+  { induction H as [|x fs Hx HF IH]; cbn [py_mapM]; [reflexivity|].
+    unfold deref_feature at 1. rewrite Hx, IH. reflexivity. }
+  rewrite E. cbn. now rewrite rec_set_features_same.
+Qed.
